@@ -86,6 +86,7 @@ impl Case {
             "nest" => "nest",
             "comp-stream" => "comp-stream",
             "badclass" => "badclass",
+            "classfuzz" => "classfuzz",
             _ => "random",
         };
         Case {
@@ -497,7 +498,7 @@ impl Oracle<'_> {
             FrameSrc::Nest { depth, .. } => depth * 2,
         };
         let stage = decode::stage_name(o.stage);
-        let shape = if c.class == "field" || c.class == "field2" || c.class == "nest" || c.class == "badclass" { c.site.clone() } else if c.class == "wellformed" { format!("wellformed:{}", c.site) } else { c.class.to_string() };
+        let shape = if c.class == "field" || c.class == "field2" || c.class == "nest" || c.class == "badclass" || c.class == "classfuzz" { c.site.clone() } else if c.class == "wellformed" { format!("wellformed:{}", c.site) } else { c.class.to_string() };
         let mismatch = c.expect.is_some() && (o.status != 0 || Some(o.hash) != c.expect.as_ref().map(|e| vcore::fnv64(e.as_bytes())));
         // violation key: failure class + decode site (+ deviated field for failures that have no allocation site)
         let key: Option<String> = if let Some((_, _, _, site)) = &o.oversize {
@@ -853,6 +854,51 @@ fn badclass_cases(out: &mut Vec<Case>) {
     }
 }
 
+/// every hole of every class-string template x every string of length 0..=maxlen over CLASS_SYMBOLS (+ invalid UTF-8)
+fn classfuzz_cases(template: usize, maxlen: usize, out: &mut Vec<Case>) {
+    let (name, tpl) = frames::class_templates()[template];
+    let (pre, post) = tpl.split_once("{}").unwrap();
+    let syms = frames::CLASS_SYMBOLS;
+    let mut subs: Vec<Vec<u8>> = vec![vec![]];
+    let mut layer: Vec<Vec<u8>> = vec![vec![]];
+    for _ in 0..maxlen {
+        let mut next = Vec::with_capacity(layer.len() * syms.len());
+        for s in &layer {
+            for y in syms {
+                let mut t = s.clone();
+                t.extend_from_slice(y.as_bytes());
+                next.push(t);
+            }
+        }
+        subs.extend(next.iter().cloned());
+        layer = next;
+    }
+    // invalid UTF-8 inside the [string]: lone continuation / lead bytes, truncated and overlong sequences, at both parities
+    for bad in [&[0xffu8][..], &[0xc3], &[0x80], &[b'a', 0xc3], &[0xe4, 0xb8], &[b'a', 0xe4, 0xb8], &[0xf0, 0x9d, 0x9f], &[0xc0, 0xaf], &[b'6', 0xed, 0xa0, 0x80]] {
+        subs.push(bad.to_vec());
+    }
+    for sub in subs {
+        let cls: Vec<u8> = [pre.as_bytes(), &sub, post.as_bytes()].concat();
+        for prepared in [false, true] {
+            // the owned (Prepared) and borrowed (Rows) parser entry points share the class parser: Prepared for a third of the cases
+            if prepared && sub.len() % 3 != 0 {
+                continue;
+            }
+            out.push(Case {
+                frame: FrameSrc::Bytes(Arc::new(frames::plain_frame(p::opcode::RESULT, 0, 1, &frames::custom_type_body(&cls, prepared)))),
+                comp: 0,
+                feat: 0,
+                opts: 0,
+                cached: None,
+                expect: None,
+                class: "classfuzz",
+                site: format!("type.custom.class/{name}"),
+                origin: format!("class string {:?} ({name} <- {:?}) in {}", String::from_utf8_lossy(&cls), String::from_utf8_lossy(&sub), if prepared { "Prepared" } else { "Rows" }),
+            });
+        }
+    }
+}
+
 fn random_cases(seed: u64, n: usize, out: &mut Vec<Case>) {
     let mut rng = vcore::Rng::new(seed ^ 0xC08);
     let ops = [0x00u8, 0x02, 0x03, 0x06, 0x08, 0x0C, 0x0E, 0x10];
@@ -1113,6 +1159,7 @@ fn main() {
         BadClass,
         Random(u64),
         Stream,
+        ClassFuzz(usize),
     }
     let mut units: Vec<Unit> = Vec::new();
     for i in 0..corpus.len() {
@@ -1136,6 +1183,9 @@ fn main() {
         }
     }
     units.push(Unit::Stream);
+    for t in 0..frames::class_templates().len() {
+        units.push(Unit::ClassFuzz(t));
+    }
     units.push(Unit::Nest);
     units.push(Unit::BadClass);
     let n_random = if thorough { 5_000_000 } else { 100_000 };
@@ -1154,6 +1204,7 @@ fn main() {
             Unit::BadClass => only == "badclass",
             Unit::Random(_) => only == "random",
             Unit::Stream => only == "stream",
+            Unit::ClassFuzz(_) => only == "classfuzz",
         });
     }
     let oref = &oracle;
@@ -1173,6 +1224,7 @@ fn main() {
             Unit::BadClass => "badclass",
             Unit::Random(_) => "random",
             Unit::Stream => "stream",
+            Unit::ClassFuzz(_) => "classfuzz",
         };
         match u {
             Unit::Well(i) => {
@@ -1238,6 +1290,7 @@ fn main() {
             Unit::BadClass => badclass_cases(&mut cases),
             Unit::Random(k) => random_cases(seed.wrapping_mul(1000).wrapping_add(k), 10_000, &mut cases),
             Unit::Stream => run_stream_cases(oref.r, &stream_cases(thorough)),
+            Unit::ClassFuzz(t) => classfuzz_cases(t, if thorough { 5 } else { 4 }, &mut cases),
         }
         // nests are megabytes each: small batches
         let b = if matches!(u, Unit::Nest) { 8 } else { batch };
@@ -1266,7 +1319,7 @@ fn main() {
     if unrep > 0 && r.args.extra_value("--only").is_none() {
         vcore::machinery_error(&format!("{unrep} fatal outcomes did not reproduce when the case was re-run alone"));
     }
-    r.set_rule("E-ENUM with deviation bounding. 0 deviations: corpus of well-formed frames of every response kind (ERROR all 19 codes with extras, READY, AUTHENTICATE, SUPPORTED, RESULT void/rows/set_keyspace/prepared/schema_change, EVENT all kinds, AUTH_CHALLENGE/SUCCESS; rows over a depth-2 type alphabet incl. class-string forms and vectors, every metadata flag combination, 0..2 rows, cached-metadata twin for no_metadata) x extension subsets x {none, LZ4, Snappy} x {matches, literal-only} x feature combinations (quick: 4; thorough: all 16), decoded through read_response_frame -> parse_response_body_extensions -> ResponseV2::deserialize (+ legacy Response for events) -> deserialize_metadata -> rows as raw cells, as Row/CqlValue and as every typed tuple of the target alphabet that passes type_check; decoded text must equal the text derived from the cqlref model. 1 deviation: every stream truncation, every body truncation with consistent header, every length/count/flag/id field x {0,1,-1,-2,+1,-1,0x7fff,0xffff,i32::MAX,i32::MIN, bit flips, all type ids / result kinds / opcodes / error codes}, header fields, every offset of the rows content x boundary 4-byte / 8-byte / 1-byte values (counts and lengths inside cell values, extreme scalars; typed targets on), damaged compressed streams (every cut, every byte x 4 values, announced length), bad class strings, type nesting 1e2..1e6 (binary) and 4..7000 (class strings). 2 deviations: field pairs (quick: same region or adjacent, reduced value alphabet; thorough: same region at any distance or any two fields <= 12 apart, full alphabet) and field mutation + body truncation right after the field / right before the end; thorough also repeats the single deviations under 6 feature sets with typed targets. Two-column rows over ordered pairs of the type alphabet (quick: a third; thorough: all). Stream level: sequences of 1-3 well-formed frames back to back in one reader, first-frame body sizes {0,1,9,8191,8192,32767,32768,32769,40000,49152,65535,65536,65537,100000,131073,300001}, reader handing out {everything, 1, 7, 4096, 65537} bytes per poll with Pending in between, decoded by repeated read_response_frame: every (params, opcode, body) equals what was encoded, in order, the reader is exhausted exactly at the end and one more read is an error. Sampled (labelled): random bodies behind valid headers. Oracle per case in a child process: no panic/abort/signal/stack overflow (2 MiB thread)/more than 4 s of CPU time for one decode; largest single request and peak live bytes above the pre-decode level <= 64 KiB + 256 x frame length (x decompressed body length once a compressed body has been inflated) by a counting allocator that reports before the request is served and refuses > 64 MiB. distinct_nontrivial = round trips that matched + deviations rejected with a clean error.");
+    r.set_rule("E-ENUM with deviation bounding. 0 deviations: corpus of well-formed frames of every response kind (ERROR all 19 codes with extras, READY, AUTHENTICATE, SUPPORTED, RESULT void/rows/set_keyspace/prepared/schema_change, EVENT all kinds, AUTH_CHALLENGE/SUCCESS; rows over a depth-2 type alphabet incl. class-string forms and vectors, every metadata flag combination, 0..2 rows, cached-metadata twin for no_metadata) x extension subsets x {none, LZ4, Snappy} x {matches, literal-only} x feature combinations (quick: 4; thorough: all 16), decoded through read_response_frame -> parse_response_body_extensions -> ResponseV2::deserialize (+ legacy Response for events) -> deserialize_metadata -> rows as raw cells, as Row/CqlValue and as every typed tuple of the target alphabet that passes type_check; decoded text must equal the text derived from the cqlref model. 1 deviation: every stream truncation, every body truncation with consistent header, every length/count/flag/id field x {0,1,-1,-2,+1,-1,0x7fff,0xffff,i32::MAX,i32::MIN, bit flips, all type ids / result kinds / opcodes / error codes}, header fields, every offset of the rows content x boundary 4-byte / 8-byte / 1-byte values (counts and lengths inside cell values, extreme scalars; typed targets on), damaged compressed streams (every cut, every byte x 4 values, announced length), bad class strings, class-string grammar holes (UDT keyspace / hex type name / hex field names / nested parameters / hex prefix / identifiers / vector dimension: 15 templates x every string of length 0..4 (thorough 0..5) over {hex digits, non-hex ASCII, '_', '.', 2-/3-/4-byte UTF-8 alphanumerics} + invalid UTF-8), type nesting 1e2..1e6 (binary) and 4..7000 (class strings). 2 deviations: field pairs (quick: same region or adjacent, reduced value alphabet; thorough: same region at any distance or any two fields <= 12 apart, full alphabet) and field mutation + body truncation right after the field / right before the end; thorough also repeats the single deviations under 6 feature sets with typed targets. Two-column rows over ordered pairs of the type alphabet (quick: a third; thorough: all). Stream level: sequences of 1-3 well-formed frames back to back in one reader, first-frame body sizes {0,1,9,8191,8192,32767,32768,32769,40000,49152,65535,65536,65537,100000,131073,300001}, reader handing out {everything, 1, 7, 4096, 65537} bytes per poll with Pending in between, decoded by repeated read_response_frame: every (params, opcode, body) equals what was encoded, in order, the reader is exhausted exactly at the end and one more read is an error. Sampled (labelled): random bodies behind valid headers. Oracle per case in a child process: no panic/abort/signal/stack overflow (2 MiB thread)/more than 4 s of CPU time for one decode; largest single request and peak live bytes above the pre-decode level <= 64 KiB + 256 x frame length (x decompressed body length once a compressed body has been inflated) by a counting allocator that reports before the request is served and refuses > 64 MiB. distinct_nontrivial = round trips that matched + deviations rejected with a clean error.");
     r.set_exhaustive(true);
     r.assume("row iteration is consumer-driven: the harness pulls at most 4096 rows per iterator and stops at the first error; every step is checked");
     r.assume("the decode runs on a 2 MiB thread (tokio worker default), RLIMIT_AS 2 GiB protects the checker only; verdicts come from the counting allocator");
